@@ -1722,6 +1722,8 @@ def real_samples(
             neg_diff = diff_ulp(abs(min_value), min_pos_value)
             pos_diff = diff_ulp(abs(max_value), min_pos_value)
             neg_num = int(neg_diff * num / max(1, neg_diff + pos_diff))
+            # both bounds must be sampled: each side of zero gets at least two samples
+            neg_num = min(max(neg_num, 2), num - 2 - int(bool(include_zero)))
             pos_num = num - neg_num - int(bool(include_zero))
 
             neg_part = real_samples(
